@@ -74,10 +74,10 @@ func init() {
 		raceShare: 2, singleProc: true,
 		requiredProbes: []string{
 			"wl_css.Lexer", "wl_css.Parser", "wl_html.Lexer", "wl_xml.Lexer", "wl_json.Parser", "wl_js.Lexer", "wl_js.Parse+print+Walk", "wl_strconv", "wl_helpers",
-			"wl_Position/Error", "wl_Input+buffer.Lexer", "wl_StreamLexer", "wl_Indenter", "wl_BinaryWriter/Reader",
+			"wl_Position/Error", "wl_Input+buffer.Lexer", "wl_StreamLexer", "wl_Indenter", "wl_BinaryWriter/Reader", "wl_buffer.Writer/Reader+misc", "wl_js.AST strings",
 			"probe_identical_inputs", "probe_focused_runs", "probe_decoy_before_real", "probe_fresh_process_compared", "probe_sched_task_switches", "probe_scheduled_runs",
 		},
-		rule: "one run = 2-6 caller tasks, each a deterministic workload (one of 14 entry-point families) over a private instance and private input from an embedded corpus, spliced/mutated/truncated from the tape, half of the runs with two tasks on byte-identical input; executed solo in order, interleaved one-at-a-time by the seeded baton scheduler (yield before every public call and inside every simulated reader/writer/visitor), solo again in reverse order, and for a sample in a fresh process; half of the workers run the same runs under the Go race detector, to which the scheduler is invisible; non-trivial = at least two tasks took at least two turns each; distinct = hash of (multiset of workload kinds, schedule projected on (task, yield site))",
+		rule: "one run = 2-6 caller tasks, each a deterministic workload (one of 16 entry-point families) over a private instance and private input from an embedded corpus, spliced/mutated/truncated from the tape, half of the runs with two tasks on byte-identical input; executed solo in order, interleaved one-at-a-time by the seeded baton scheduler (yield before every public call and inside every simulated reader/writer/visitor), solo again in reverse order, and for a sample in a fresh process; half of the workers run the same runs under the Go race detector, to which the scheduler is invisible; non-trivial = at least two tasks took at least two turns each; distinct = hash of (multiset of workload kinds, schedule projected on (task, yield site))",
 		realStub: map[string][]string{
 			"real": append([]string{"every package of the library: css, html, xml, json, js (lexer, parser, printer, Walk), strconv, buffer, parse helpers, Input, StreamLexer, BinaryReader/Writer, Indenter, Position/Error", "Go race detector"}, realLib...),
 			"stub": {"caller tasks (workloads)", "baton scheduler", "yielding reader / writer / visitor"},
